@@ -1,5 +1,189 @@
-import StraxModel.Model.Basic
+import StraxModel.Lemmas.FSStep
+/-
+  C04 — a crash or I/O failure never leaves wrong data visible as valid.
+
+  Model: `Model/FS.lean` (abstract crashing file system; the FileSaver protocol as a small-step machine: saver
+  thread + chunk writers, three variants serial / executor / forked, faults as scheduler actions).
+  Invariant and its preservation by every step: `Lemmas/FS*.lean`.
+
+  `Reach cs fs`: `fs` is reachable from the empty file system by ANY number of `make` attempts for the chunk list
+  `cs`, each under any variant, any handler behaviour (extra chunks flushed by the single-thread processor's
+  SaverSpy, abandoned savers), any schedule of saver thread / chunk writers / rmtree order, any faults (any
+  operation raising, exceptions thrown in from elsewhere) and stopped at ANY point (process death).
+  All statements are for the protocol as it is in /repo now (D3, D12, D26 fixed); the three old behaviours are
+  kept as switches of the model and refuted by `decide` on concrete witnesses (`…_old_counterexample`).
+-/
 namespace Strax.C04
-open Strax
+open Strax Strax.FS
+
+/-! ## the central invariant -/
+
+/-- The final directory name appears only through the last rename, after a metadata flush: whenever it exists
+its metadata file exists and parses, and if that metadata says "writing ended, no exception" then it lists
+exactly the chunks `cs` and every chunk file it names is in place with the right rows. -/
+theorem final_only_by_rename {cs : List Chunk} (hcs : cs ≠ []) {fs : FS} (h : Reach cs fs) :
+    ∀ d, fs.final = some d → ∃ m, d.get .md = some (.json m) ∧
+      (m.good = true → m.chunks.isEmpty = false ∧ loadChunks d m.chunks = .ok cs) := by
+  intro d hd
+  have hs := reach_safe hcs h d hd
+  unfold SafeDir at hs
+  split at hs
+  · rename_i m hm; exact ⟨m, hm, hs⟩
+  · exact absurd hs id
+
+/-! ## crash safety (full strength) -/
+
+/-- After any fault sequence, at any point of death: what `find` (hence `is_stored`) reports available loads
+completely and equals the correct chunks; everything else is reported unavailable by `DataNotAvailable` — never by
+another exception. -/
+theorem crash_safe {cs : List Chunk} (hcs : cs ≠ []) {fs : FS} (h : Reach cs fs) :
+    (visible fs = true → loads fs = .ok cs) ∧ (visible fs = false → find fs = .error .dataNotAvailable) := by
+  rcases safe_visible (reach_safe hcs h) with ⟨hf, hl⟩ | hf
+  · exact ⟨fun _ => hl, fun hv => by simp [visible, hf, Except.toBool] at hv⟩
+  · exact ⟨fun hv => by simp [visible, hf, Except.toBool] at hv, fun _ => hf⟩
+
+/-- The same for a configuration in the middle of an attempt (the process may die right there). -/
+theorem crash_safe_midway {cs : List Chunk} (hcs : cs ≠ []) {fs : FS} (h : Reach cs fs) (hst : start fs = .save)
+    (v : Variant) (hs : HandlerSpec) (acts : List Act) {c : Cfg} (hrun : run (initCfg fs v {} cs hs) acts = some c) :
+    (visible c.fs = true → loads c.fs = .ok cs) ∧ (visible c.fs = false → find c.fs = .error .dataNotAvailable) :=
+  crash_safe hcs (Reach.attempt h hst hrun)
+
+/-- No reachable state makes a later request fail up front: the state "final directory without metadata"
+(D12) is unreachable, `find` never raises `DataCorrupted`, so an identical request either finds the data or
+recomputes it — no manual cleanup. -/
+theorem retry_never_refused {cs : List Chunk} (hcs : cs ≠ []) {fs : FS} (h : Reach cs fs) :
+    D12 fs = false ∧ start fs ≠ .corrupted := by
+  refine ⟨?_, ?_⟩
+  · unfold D12
+    cases hf : fs.final with
+    | none => rfl
+    | some d =>
+      obtain ⟨m, hm, _⟩ := final_only_by_rename hcs h d hf
+      simp [hm]
+  · rcases safe_visible (reach_safe hcs h) with ⟨hf, _⟩ | hf <;> simp [start, hf]
+
+/-! ## failures are reported (full strength, all variants) -/
+
+/-- If any FS operation of the protocol raised — on the saver thread or in a chunk write on the executor / in a
+forked copy — the attempt never ends in "success".  (Includes the D3 statement: a failed executor write is never
+swallowed.)  `lostClose = false` says that the processor looks at an exception of the final `close`, which is the
+behaviour of both processors since the D26 fix. -/
+theorem failure_reported {cs : List Chunk} (hcs : cs ≠ []) {fs : FS} (h : Reach cs fs) (v : Variant) (hs : HandlerSpec)
+    (hl : hs.lostClose = false) (acts : List Act) {c : Cfg} (hrun : run (initCfg fs v {} cs hs) acts = some c)
+    (hf : c.failed = true) : c.out ≠ .success := by
+  have hI := inv_init (reach_safe hcs h) v hs
+  have hR := rep_run hcs acts hI hl (rep_init fs v cs hs) hrun
+  intro hsu
+  obtain ⟨hh, _, hok⟩ := hR.f2 hsu
+  rcases hR.f1 hf with h1 | h1 | ⟨w, hw, hwf⟩
+  · rw [hh] at h1; cases h1
+  · rw [hsu] at h1; cases h1
+  · have := hok w hw; rw [hwf] at this; cases this
+
+/-! ## a retry heals -/
+
+/- Full statement: from any state reachable by any fault sequence, a full fault-free run of the protocol (any
+   schedule) terminates in "success" with the data stored completely and correctly.
+   Proved: (1) `retry_never_refused` — the retry is never refused and starts (or finds the data already stored and
+   correct, `crash_safe`); (2) `retry_heals_partial` — whenever the retry ends in "success" (any schedule, any
+   variant) the data is visible, loads completely and equals the correct chunks; (3) `failure_reported` — it can
+   only end otherwise if an operation raised or an exception was thrown in.
+   Missing: that a fault-free run cannot hit an operation that fails for a reason of the file-system state
+   (e.g. `mkdir` of an existing directory) and that every schedule terminates.  Both are exercised by the check
+   (every fault run is followed by a clean retry on the real code and in the model) and witnessed below by `decide`
+   for the three variants from the empty directory, a stale temp directory and broken final data. -/
+theorem retry_heals_partial {cs : List Chunk} (hcs : cs ≠ []) {fs : FS} (h : Reach cs fs) (v : Variant) (hs : HandlerSpec)
+    (hl : hs.lostClose = false) (acts : List Act) {c : Cfg} (hrun : run (initCfg fs v {} cs hs) acts = some c)
+    (hsu : c.out = .success) : visible c.fs = true ∧ loads c.fs = .ok cs := by
+  have hI := inv_init (reach_safe hcs h) v hs
+  have hR := rep_run hcs acts hI hl (rep_init fs v cs hs) hrun
+  obtain ⟨d, m, hd, hm, hg⟩ := hR.succ hsu
+  have hsafe := (inv_run hcs acts hI hrun).safe
+  have hdir := hsafe d hd
+  unfold SafeDir at hdir
+  rw [hm] at hdir
+  obtain ⟨hne, hload⟩ := hdir hg
+  have hgm : getMetadata c.fs = .ok m := by simp [getMetadata, hd, hm]
+  simp only [Meta.good, Bool.and_eq_true, Bool.not_eq_true'] at hg
+  have hfind : find c.fs = .ok () := by simp [find, hd, hgm, hg.1, hg.2]
+  exact ⟨by simp [visible, hfind, Except.toBool], by simp [loads, hfind, hgm, hne, hd, hload]⟩
+
+/-! ## witnesses (`decide`), non-vacuity -/
+
+def c1 : Chunk := { dataType := "d", kind := "k", runId := some "0", start := 0, stop := 10, rows := [⟨1, 3, 0⟩],
+                    subruns := none, superrun := [], target := 0 }
+def c2 : Chunk := { c1 with start := 10, stop := 20, rows := [] }
+
+def specOf (v : Variant) : HandlerSpec := ⟨v, [], 0, false, false⟩
+
+example : [c1, c2] ≠ [] := by decide
+example : (specOf .executor).lostClose = false := rfl
+
+/-- `Reach` is inhabited beyond the empty file system: death after `mkdir temp` leaves a temp directory -/
+example : ∃ c, run (initCfg FS.empty .serial {} [c1] (specOf .serial)) [.sav, .sav, .sav, .sav, .sav] = some c ∧
+    Reach [c1] c.fs ∧ c.fs.temp = some [] := by
+  refine ⟨_, rfl, ?_, rfl⟩
+  exact Reach.attempt Reach.empty (by decide) rfl
+
+/-- error kind of `find`, as a decidable value -/
+def findErr (fs : FS) : Option Err :=
+  match find fs with
+  | .ok _ => none
+  | .error e => some e
+
+def loadErr (fs : FS) : Option Err :=
+  match loads fs with
+  | .ok _ => none
+  | .error e => some e
+
+/-- the outcome of two attempts in a row under the eager scheduler -/
+def twoAttempts (v : Variant) (pr : Proto) (hs : HandlerSpec) (o : RmOrder) (f1 f2 : Option Fault) : Cfg × Result :=
+  let r1 := (attempt FS.empty v pr [c1, c2] hs o f1).1
+  let r2 := attempt r1.cfg.fs v pr [c1, c2] hs o f2
+  (r2.1.cfg, r2.2)
+
+/-- a retry heals: serial variant, after an exception that left broken data (final directory with "exception") -/
+theorem retry_heals_serial_example :
+    let r := twoAttempts .serial {} (specOf .serial) .metaFirst (some ⟨9, .exc⟩) none
+    r.2 = .success ∧ visible r.1.fs = true ∧ (loads r.1.fs).toBool = true := by decide
+
+/-- … executor variant, after the process died in the middle of a chunk write (stale temp directory) -/
+theorem retry_heals_executor_example :
+    let r := twoAttempts .executor {} (specOf .executor) .sorted (some ⟨7, .dieAfter⟩) none
+    r.2 = .success ∧ visible r.1.fs = true ∧ (loads r.1.fs).toBool = true := by decide
+
+/-- … forked variant, after an I/O error on a per-chunk metadata file -/
+theorem retry_heals_forked_example :
+    let r := twoAttempts .forked {} (specOf .forked) .metaLast (some ⟨11, .exc⟩) none
+    r.2 = .success ∧ visible r.1.fs = true ∧ (loads r.1.fs).toBool = true := by decide
+
+/-- D12 is gone: death inside the removal of broken data (after its metadata file was unlinked) now leaves a temp
+directory; the data is reported unavailable … -/
+theorem rmtree_death_fixed_example :
+    let r := twoAttempts .serial {} (specOf .serial) .metaFirst (some ⟨9, .exc⟩) (some ⟨4, .dieAfter⟩)
+    r.2 = .died ∧ findErr r.1.fs = some .dataNotAvailable ∧ D12 r.1.fs = false := by decide
+
+/-- … whereas the OLD protocol (broken data deleted in place) reaches the state "final directory without
+metadata", in which `find` / `is_stored` raise `DataCorrupted` and every later request is refused -/
+theorem rmtree_death_old_counterexample :
+    let r := twoAttempts .serial { atomicRemove := false } (specOf .serial) .metaFirst (some ⟨9, .exc⟩) (some ⟨2, .dieAfter⟩)
+    r.2 = .died ∧ findErr r.1.fs = some .dataCorrupted ∧ D12 r.1.fs = true ∧ start r.1.fs = .corrupted := by decide
+
+/-- D3: the OLD protocol (done futures dropped unchecked, `close` only waits) admits a run that ends in "success"
+although a chunk write on the executor failed: the data is visible, the chunk file is missing, loading fails -/
+theorem old_protocol_swallows_failure_old_counterexample :
+    let r := (attempt FS.empty .executor { recheck := false } [c1, c2] (specOf .executor) .sorted (some ⟨7, .exc⟩)).1
+    r.cfg.out = .success ∧ r.cfg.failed = true ∧ visible r.cfg.fs = true ∧ loadErr r.cfg.fs = some .osError := by decide
+
+/-- D26: a processor that does not look at an exception of the final `close` (threaded processor before the fix)
+reports success although the last metadata flush failed and nothing was stored -/
+theorem close_failure_lost_old_counterexample :
+    let r := (attempt FS.empty .serial {} [c1, c2] ⟨.serial, [], 0, false, true⟩ .sorted (some ⟨19, .exc⟩)).1
+    r.cfg.out = .success ∧ r.cfg.failed = true ∧ r.cfg.lost = true ∧ visible r.cfg.fs = false := by decide
+
+/-- the same fault under the current behaviour is reported -/
+example :
+    let r := (attempt FS.empty .serial {} [c1, c2] (specOf .serial) .sorted (some ⟨19, .exc⟩)).1
+    r.cfg.out = .raised ∧ r.cfg.failed = true ∧ visible r.cfg.fs = false := by decide
 
 end Strax.C04
